@@ -17,6 +17,30 @@ warnings.simplefilter("ignore")
 F1 = ("bins", "freq", "err2", "under", "over", "dtype")
 FN = ("bins", "freq", "err2", "missed", "shape", "dtype")
 
+# Three inputs on which the library deviated from the property when this module was extended (all repaired since):
+#   tuple_form_args     h1((name, values), bins, weights=..., dropna=..., axis_name=...): the named arguments were dropped
+#   polars_int_weights  integer weights given as a polars Series gave a float64 histogram (int64 for the numpy array)
+#   dask_all_nan_chunk  a 1-D dask array one of whose chunks holds only NaN was refused by the dask facade
+# The oracle treats them like everything else; each is a *generator* switch, so that a tree in which one of them is still
+# (or again) broken can be checked for everything else. All are generated unless named in SKIPPED_BY_DEFAULT; for one run
+#   VERIF_C17_SKIP=tuple_form_args,dask_all_nan_chunk   leaves triggers out     (1 / all: all three)
+#   VERIF_C17_OPEN=polars_int_weights                   puts skipped ones back  (1 / all: all three)
+# The switches in force are stored in the case ("open"), so a replay does what the run did.
+FINDING_TRIGGERS = ("tuple_form_args", "polars_int_weights", "dask_all_nan_chunk")
+SKIPPED_BY_DEFAULT: frozenset = frozenset()
+
+
+def _names(env: str) -> set:
+    v = os.environ.get(env, "").strip()
+    if v in ("1", "all"):
+        return set(FINDING_TRIGGERS)
+    return {t.strip() for t in v.split(",") if t.strip() in FINDING_TRIGGERS}
+
+
+def open_triggers() -> list:
+    skipped = (set(SKIPPED_BY_DEFAULT) | _names("VERIF_C17_SKIP")) - _names("VERIF_C17_OPEN")
+    return sorted(set(FINDING_TRIGGERS) - skipped)
+
 
 def s1(h):
     s = impl1.snap1(h)
@@ -32,22 +56,73 @@ def sn(h):
     return d
 
 
+def sany(h):
+    """snapshot of whatever dimension came back (the polars frame namespace returns 1-D or N-D)"""
+    return s1(h) if getattr(h, "ndim", 0) == 1 else sn(h)
+
+
+def partition(rng, n):
+    """a random split of n rows into chunk sizes >= 1"""
+    parts, left = [], n
+    while left > 0:
+        c = rng.randint(1, max(1, min(left, rng.choice([1, 2, 4, 9]))))
+        parts.append(c)
+        left -= c
+    return parts
+
+
+def merge_all_nan_chunks(parts, isnan):
+    """join every chunk that holds only NaN entries to a neighbour (isnan: one flag per row)"""
+    parts = list(parts)
+    changed = True
+    while changed and len(parts) > 1:
+        changed = False
+        pos = 0
+        for i, c in enumerate(parts):
+            if all(isnan[pos:pos + c]):
+                j = i + 1 if i + 1 < len(parts) else i - 1
+                lo, hi = min(i, j), max(i, j)
+                parts[lo:hi + 1] = [parts[lo] + parts[hi]]
+                changed = True
+                break
+            pos += c
+    return parts
+
+
+def drop_row_from_partition(parts, j):
+    """the partition after row j has been deleted"""
+    out, pos = [], 0
+    for c in parts:
+        out.append(c - 1 if pos <= j < pos + c else c)
+        pos += c
+    return [c for c, orig in zip(out, parts) if c > 0 or orig == 0]
+
+
 class C17:
     ID = "C17"
-    N_QUICK = 120
+    N_QUICK = 170
     N_THOROUGH = 2500
     N_SEARCH = 120
     RULE = ("one numeric data set (with / without NaN, weights absent / int / float, 1-D or (n, d) with d = 2..3) over explicit bins, "
-            "entered as numpy array (reference), list, tuple, iterator, 2-D / 3-D C- and Fortran-ordered arrays, pandas Series "
-            "(named) and .physt accessor, pandas DataFrame and accessors (h1 / h2 / histogram, weights as column), polars Series / "
-            "DataFrame, dask arrays in chunkings {1, 3, 7, n} (adaptive fixed-width bins), weights as list / Series; refused "
-            "inputs (non-numeric, nulls, DataFrame to h1, Series to h, scalar, wrong shape); conversions to / from xarray, pandas "
-            "Series / DataFrame / IntervalIndex (gapped bins too) and the two Geant4 CSV files. non-trivial = at least one entry "
-            "inside a bin and one NaN or weight; distinct = case hash")
+            "entered as numpy array (reference), list, tuple, (name, values) tuple, iterator, 2-D / 3-D C- and Fortran-ordered arrays, "
+            "pandas Series (named) and .physt accessor (h1 / histogram / cut), pandas DataFrame and accessors (h1 / h2 / histogram, with and "
+            "without column arguments, column subsets in either order, weights as column), polars Series / DataFrame and their .physt "
+            "namespaces (h1; h with 0 / 1 / 2 / 3 selectors, a non-numeric column beside the data), weights as list / pandas Series / polars "
+            "Series, dask arrays through the plain facades and, in a separate stream over adaptive fixed-width bins (values on a 1/8 grid, "
+            "NaN rows, d = 1..3), through physt.compat.dask h1 / h2 / h3 / histogramdd: row partitions {1, 3, 7, n, random}, split column "
+            "axis, list / tuple of columns, numpy input, compute=False graphs, dask_method None / threads / callable; collection(frame | "
+            "dict); refused inputs (non-numeric, nulls in data or weights, DataFrame to h1, Series to h, scalar, wrong shape / dim / number "
+            "of axis names, frames without usable columns, unknown columns, non-2-D dask arrays); outcomes only recorded where the "
+            "property is silent (adaptive=False, invalid method name, weights with dask, one-column frames to histogram()); conversions to / "
+            "from xarray, pandas Series / DataFrame / IntervalIndex (gapped bins too) and the two Geant4 CSV files. non-trivial = at least "
+            "one entry inside a bin; distinct = case hash")
     EXTRA_TRUST = ["pandas, polars, dask and xarray conversions are exercised, not modelled"]
     ASSUMPTIONS = ["the reference is physt's own result on the equivalent numpy array, itself tied to the model by C01 / C02"]
 
+    # ------------------------------------------------------------------ generators
     def gen_case(self, rng, k, tier):
+        if rng.random() < 0.3:
+            return self.gen_dask(rng)
         d = rng.choice([1, 1, 2, 3])
         n = rng.choice([2, 5, 9, 16, 30])
         if d == 1:
@@ -60,32 +135,109 @@ class C17:
             data = gennd.rows_for(rng, [a[1] for a in axes], n, nan_share=rng.choice([0, 0.2]))
             binning = [a[0] for a in axes]
         ws, wk = gen1.weights_for(rng, n, kinds=["none", "none", "int", "dyadic"])
-        return {"kind": "containers", "d": d, "binning": binning, "data": data if d > 1 else [[v] for v in data],
+        case = {"kind": "containers", "d": d, "binning": binning, "data": data if d > 1 else [[v] for v in data],
                 "weights": ws, "wkind": wk, "names": [f"col{i}" for i in range(d)], "dropna": rng.random() < 0.85,
                 "tags": [f"d:{d}"]}
+        # the additional entry forms: which columns an accessor selects (order matters), where a null / a string goes,
+        # how a dask array handed to the plain facades is chunked
+        case["extra"] = {"sub": rng.sample(range(d), 2) if d >= 2 else [0], "null_at": rng.randrange(n),
+                         "chunk": rng.choice([1, 2, 3, 7, n]), "colchunk": rng.choice([1, d]),
+                         "label": rng.choice(["s", "label", "w"]), "wrong_names": rng.choice([d - 1, d + 1])}
+        case["open"] = open_triggers()
+        case["tags"] += [f"open:{t}" for t in case["open"]]
+        return case
 
-    # ------------------------------------------------------------------
+    def gen_dask(self, rng):
+        """a data set for physt.compat.dask: adaptive fixed-width bins of dyadic width, values on a 1/8 grid in [-3, 3]"""
+        d = rng.choice([1, 1, 2, 2, 3])
+        n = rng.choice([2, 5, 9, 16, 17, 30])
+        nan_share = rng.choice([0, 0.15, 0.3])
+
+        def value():
+            if rng.random() < nan_share / d:
+                return None
+            return rng.randint(-24, 24) / 8
+
+        rows = [[value() for _ in range(d)] for _ in range(n)]
+        if all(any(v is None for v in r) for r in rows):
+            rows[rng.randrange(n)] = [rng.randint(-8, 8) / 4 for _ in range(d)]
+        if d == 1 or rng.random() < 0.6:
+            width = rng.choice([0.5, 1.0, 0.25, 0.75])
+        else:
+            width = [rng.choice([0.5, 1.0, 0.25]) for _ in range(d)]
+        small = 1 if n <= 17 else 2
+        parts = [[small] * (n // small) + ([n % small] if n % small else []), [3] * (n // 3) + ([n % 3] if n % 3 else []), [7] * (n // 7) + ([n % 7] if n % 7 else []), [n],
+                 partition(rng, n)]
+        empty = partition(rng, n)
+        empty.insert(rng.randint(0, len(empty)), 0)      # "chunked in any way": a chunk without rows
+        parts.append(empty)
+        opened = open_triggers()
+        if d == 1 and "dask_all_nan_chunk" not in opened:
+            flags = [r[0] is None for r in rows]
+            parts = [merge_all_nan_chunks(p, flags) for p in parts]
+        uniq = []
+        for p in parts:
+            if p not in uniq:
+                uniq.append(p)
+        ws, wk = gen1.weights_for(rng, n, kinds=["int", "dyadic"])
+        case = {"kind": "dask", "d": d, "data": rows, "width": width, "parts": uniq,
+                "colparts": [rng.choice([[1] * d, [d]] + ([[1, 2], [2, 1]] if d == 3 else [])) for _ in uniq],
+                "colpart_each": [partition(rng, n) for _ in range(d)],
+                "weights": ws, "wkind": wk, "names": [f"col{i}" for i in range(d)], "open": opened,
+                "tags": [f"d:{d}", "kind:dask"] + [f"open:{t}" for t in opened]}
+        return case
+
+    # ------------------------------------------------------------------ the implementation
     def run_impl(self, case):
+        if case["kind"] == "dask":
+            return self.run_dask(case)
         import dask.array as da
         import pandas as pd
         import polars as pl
         import physt
         from physt import h, h1, h2, h3
         from physt.compat import dask as pdask
+        import physt.compat.pandas as pc
+        import physt.compat.polars  # noqa: F401
         d = case["d"]
         A = np.array([[np.nan if v is None else v for v in r] for r in case["data"]], dtype=float)
         ws = None if case["weights"] is None else np.array(case["weights"], dtype=case["wkind"])
         names = case["names"]
         dropna = case["dropna"]
-        out = {"results": {}, "refusals": {}}
+        extra = case.get("extra")
+        opened = set(case.get("open", []))
+        out = {"results": {}, "refusals": {}, "pairs": {}, "outcomes": {}}
         log = []
+        why = {}        # the error met by each demanded refusal (for the reader of a sample; not compared)
         bins = [impl1.mk_binning(b) for b in case["binning"]]
 
-        def rec(name, f, snap):
+        def run(name, f, snap):
             try:
-                out["results"][name] = snap(f())
+                return snap(f())
             except Exception as e:
-                out["results"][name] = "REFUSED"
+                log.append(f"{name}: {type(e).__name__}: {e}"[:160])
+                return "REFUSED"
+
+        def rec(name, f, snap):
+            out["results"][name] = run(name, f, snap)
+
+        def pair(name, f, ref, snap, names=None, must=True):
+            """an entry form with a reference of its own (`ref` is a snapshot or REFUSED); must=False: acceptance is not
+            required, only that an accepted call gives the reference"""
+            out["pairs"][name] = {"got": run(name, f, snap), "ref": ref, "names": names, "must": must}
+
+        def refusal(name, f):
+            try:
+                f(); out["refusals"][name] = "accepted"
+            except Exception as e:
+                out["refusals"][name] = "REFUSED"
+                why[name] = f"{type(e).__name__}: {e}"[:120]
+
+        def outcome(name, f):
+            try:
+                f(); out["outcomes"][name] = "accepted"
+            except Exception as e:
+                out["outcomes"][name] = "REFUSED"
                 log.append(f"{name}: {type(e).__name__}: {e}"[:160])
 
         def mkb():
@@ -134,16 +286,83 @@ class C17:
                             ("nan_no_dropna", (lambda: h1(np.array([1.0, np.nan]), mkb()[0], dropna=False))),
                             ("polars_null", lambda: h1(pl.Series("x", [1.0, None]), mkb()[0])),
                             ("weights_wrong_len", lambda: h1(x, mkb()[0], weights=np.ones(n + 1)))):
+                refusal(name, f)
+            if extra is not None:
+                # ---- more entry forms of the same data (each against the plain-array result) ----
+                ref_arr = out["results"]["array"]
+                rec("pandas_accessor_histogram", lambda: ser.physt.histogram(mkb()[0], weights=ws, **kw), s1)
+                df1 = pd.DataFrame({names[0]: x})
+                rec("pandas_df1_h1_nocolumn", lambda: df1.physt.h1(bins=mkb()[0], weights=ws, **kw), s1)
+                rec("pandas_df_histogram_str", lambda: df.physt.histogram(names[0], mkb()[0], weights=ws, **kw), s1)
+                rec("polars_series_accessor", lambda: pser.physt.h1(mkb()[0], weights=ws, **kw), s1)
+                pair("polars_series_explicit_axis_name", lambda: h1(pser, mkb()[0], weights=ws, axis_name="given", **kw), ref_arr, s1, names="given")
+                rec("dask_plain_h1", lambda: h1(da.from_array(x, chunks=extra["chunk"]), mkb()[0], weights=ws, **kw), s1)
+                # (name, values): what iterating over a pandas groupby yields
+                ref_plain = run("ref_plain", lambda: h1(x, mkb()[0]), s1)
+                pair("tuple_form", lambda: h1(("grp", x), mkb()[0]), ref_plain, s1)
+                pair("tuple_form_series", lambda: h1(("grp", ser), mkb()[0]), ref_plain, s1, names=names[0])
+                if "tuple_form_args" in opened:
+                    pair("tuple_form_args", lambda: h1(("grp", x), mkb()[0], weights=ws, axis_name="given", **kw), ref_arr, s1, names="given")
+                    pair("tuple_form_series_args", lambda: h1(("grp", ser), mkb()[0], weights=ws, **kw), ref_arr, s1, names=names[0])
+                if ws is not None:
+                    if ws.dtype.kind == "f" or "polars_int_weights" in opened:
+                        pair("polars_weights", lambda: h1(x, mkb()[0], weights=pl.Series("w", ws), **kw), ref_arr, s1)
+                        pair("polars_series_polars_weights", lambda: pser.physt.h1(mkb()[0], weights=pl.Series("w", ws), **kw), ref_arr, s1,
+                             names=names[0])
+                    else:
+                        wf = ws.astype(float)
+                        ref_f = run("ref_float_weights", lambda: h1(x, mkb()[0], weights=wf, **kw), s1)
+                        pair("polars_weights", lambda: h1(x, mkb()[0], weights=pl.Series("w", wf), **kw), ref_f, s1)
+                        pair("polars_series_polars_weights", lambda: pser.physt.h1(mkb()[0], weights=pl.Series("w", wf), **kw), ref_f, s1,
+                             names=names[0])
+                # one selected column of a polars frame / a one-column pandas frame to histogram(): the property does not say
+                # that a frame is taken for 1-D data -- recorded; an accepted call must give the column's histogram
+                pdf1 = pl.DataFrame({names[0]: x, extra["label"]: ["t"] * n})
+                pair("polars_df_accessor_1sel", lambda: pdf1.physt.h(names[0], bins=mkb()[0], weights=ws, **kw), ref_arr, sany, must=False)
+                pair("polars_df_accessor_1numeric", lambda: pdf1.physt.h(bins=mkb()[0], weights=ws, **kw), ref_arr, sany, must=False)
+                pair("pandas_df1_histogram", lambda: df1.physt.histogram(None, mkb()[0], weights=ws, **kw), ref_arr, sany, must=False)
+                pair("pandas_df_histogram_list1", lambda: df.physt.histogram([names[0]], mkb()[0], weights=ws, **kw), ref_arr, sany, must=False)
                 try:
-                    f(); out["refusals"][name] = "accepted"
+                    cut = ser.physt.cut(mkb()[0])
+                    out["outcomes"]["pandas_series_cut"] = "accepted"
+                    out["cut"] = [int(cut.notna().sum()), int(len(cut))]
                 except Exception:
-                    out["refusals"][name] = "REFUSED"
+                    out["outcomes"]["pandas_series_cut"] = "REFUSED"
+                # ---- inputs the property wants refused ----
+                k = extra["null_at"]
+                xn = [None if i == k else (None if np.isnan(v) else float(v)) for i, v in enumerate(x)]
+                wn = [None if i == k else 1.0 for i in range(n)]
+                dfs = pd.DataFrame({names[0]: x, extra["label"]: ["t"] * n})
+                pdfs = pl.DataFrame({extra["label"]: ["t"] * n})
+                for name, f in (
+                        ("polars_series_accessor_null", lambda: pl.Series(names[0], xn, dtype=pl.Float64).physt.h1(mkb()[0])),
+                        ("polars_weights_null", lambda: h1(x, mkb()[0], weights=pl.Series("w", wn, dtype=pl.Float64))),
+                        ("polars_series_strings", lambda: h1(pl.Series("x", ["a"] * n), mkb()[0])),
+                        ("polars_weights_strings", lambda: h1(x, mkb()[0], weights=pl.Series("w", ["a"] * n))),
+                        ("polars_series_accessor_strings", lambda: pl.Series("x", ["a"] * n).physt.h1(mkb()[0])),
+                        ("polars_df_to_h1", lambda: h1(pl.DataFrame({names[0]: x, "v": x}), mkb()[0])),
+                        ("polars_df_accessor_nonnumeric", lambda: pdfs.physt.h(bins=mkb()[0])),
+                        ("polars_df_accessor_strings_selected", lambda: pdf1.physt.h(extra["label"], names[0], bins=mkb() + mkb())),
+                        ("pandas_accessor_strings", lambda: pd.Series(["a"] * n).physt.h1(mkb()[0])),
+                        ("pandas_df_h1_nocolumn_2cols", lambda: df.physt.h1(bins=mkb()[0])),
+                        ("pandas_df_h1_unknown_column", lambda: df.physt.h1("nope", mkb()[0])),
+                        ("pandas_df_h1_two_columns", lambda: df.physt.h1([names[0], "w"], mkb()[0])),
+                        ("pandas_df_h1_nonnumeric", lambda: dfs.physt.h1(extra["label"], mkb()[0])),
+                        ("pandas_df_histogram_nonnumeric", lambda: dfs.physt.histogram(extra["label"], mkb()[0]))):
+                    refusal(name, f)
+                # refusals of the conversions: nothing in the property asks for them -- recorded
+                b3 = [0.0, 1.0, 2.0, 3.0]
+                for name, f in (("index_to_binning_list", lambda: pc.index_to_binning(b3)),
+                                ("index_to_binning_right_closed", lambda: pc.index_to_binning(pd.IntervalIndex.from_breaks(b3, closed="right"))),
+                                ("index_to_binning_overlapping", lambda: pc.index_to_binning(
+                                    pd.IntervalIndex.from_arrays([0.0, 1.0], [2.0, 3.0], closed="left"))),
+                                ("polars_weights_frame", lambda: h1(x, mkb()[0], weights=pl.DataFrame({"w": np.ones(n)})))):
+                    outcome(name, f)
             # conversions
             rec("ref_hist", lambda: h1(x, mkb()[0], weights=ws, name="hname", **kw), s1)
             try:
                 hh = h1(x, mkb()[0], weights=ws, name="hname", dropna=True)
                 import physt.compat.xarray  # noqa: F401
-                import physt.compat.pandas as pc
                 from physt.histogram1d import Histogram1D
                 back = Histogram1D.from_xarray(hh.to_xarray())
                 out["xarray_roundtrip"] = [s1(hh), s1(back)]
@@ -182,13 +401,225 @@ class C17:
                             ("strings_df", lambda: h(pd.DataFrame({"a": ["x", "y"], "b": [1.0, 2.0]}), 2)),
                             ("wrong_cols", lambda: h(np.zeros((3, d + 1)), mkb())),
                             ("weights_wrong_len", lambda: h(A, mkb(), weights=np.ones(len(A) + 1)))):
-                try:
-                    f(); out["refusals"][name] = "accepted"
-                except Exception:
-                    out["refusals"][name] = "REFUSED"
-        return {"outs": out, "log": log}
+                refusal(name, f)
+            if extra is not None:
+                n = len(A)
+                ref_arr = out["results"]["array"]
+                sub = extra["sub"]
+                snames = [names[i] for i in sub]
+                label = extra["label"]
+
+                def subb():
+                    b = mkb()
+                    return [b[i] for i in sub]
+                ref_sub = run("ref_sub", lambda: h(A[:, sub], subb(), weights=ws, **kw), sn)
+                pdfl = pl.DataFrame({**{nm: A[:, i] for i, nm in enumerate(names)}, label: ["t"] * n})
+                dfl = df.assign(**{label: ["t"] * n})
+                # ---- polars frames through the .physt namespace (2 selected columns go through h2, 3 through h) ----
+                rec("polars_df_accessor", lambda: pdf.physt.h(bins=mkb(), weights=ws, **kw), sn)
+                rec("polars_df_accessor_numeric_only", lambda: pdfl.physt.h(bins=mkb(), weights=ws, **kw), sn)
+                rec("polars_df_accessor_all_selected", lambda: pdfl.physt.h(*names, bins=mkb(), weights=ws, **kw), sn)
+                rec("polars_df_dim", lambda: h(pdf, mkb(), weights=ws, dim=d, **kw), sn)
+                rec("pandas_df_dim", lambda: h(df, mkb(), weights=ws, dim=d, **kw), sn)
+                rec("pandas_df_named_hist", lambda: h(df, mkb(), weights=ws, name="hname", title="htitle", **kw), sn)
+                rec("dask_plain_h", lambda: h(da.from_array(A, chunks=(extra["chunk"], extra["colchunk"])), mkb(), weights=ws, **kw), sn)
+                pair("polars_df_accessor_2sel", lambda: pdfl.physt.h(*snames, bins=subb(), weights=ws, **kw), ref_sub, sn, names=snames)
+                pair("polars_df_accessor_2sel_list", lambda: pdfl.physt.h(snames, bins=subb(), weights=ws, **kw), ref_sub, sn, names=snames)
+                pair("polars_h2_series", lambda: h2(pdf[snames[0]], pdf[snames[1]], subb(), weights=ws, **kw), ref_sub, sn, names=snames)
+                pair("polars_df_explicit_names", lambda: h(pdf, mkb(), weights=ws, axis_names=[f"g{i}" for i in range(d)], **kw), ref_arr, sn,
+                     names=[f"g{i}" for i in range(d)])
+                if ws is not None:
+                    if ws.dtype.kind == "f" or "polars_int_weights" in opened:
+                        pair("polars_df_polars_weights", lambda: h(pdf, mkb(), weights=pl.Series("w", ws), **kw), ref_arr, sn, names=names)
+                        pair("polars_df_accessor_polars_weights", lambda: pdfl.physt.h(*snames, bins=subb(), weights=pl.Series("w", ws), **kw),
+                             ref_sub, sn, names=snames)
+                    else:
+                        wf = ws.astype(float)
+                        pair("polars_df_polars_weights", lambda: h(pdf, mkb(), weights=pl.Series("w", wf), **kw),
+                             run("ref_float_weights", lambda: h(A, mkb(), weights=wf, **kw), sn), sn, names=names)
+                        pair("polars_df_accessor_polars_weights", lambda: pdfl.physt.h(*snames, bins=subb(), weights=pl.Series("w", wf), **kw),
+                             run("ref_sub_float_weights", lambda: h(A[:, sub], subb(), weights=wf, **kw), sn), sn, names=snames)
+                # ---- pandas accessors: column subsets in either order, h2 without columns ----
+                pair("pandas_df_h2_subset", lambda: dfl.physt.h2(snames[0], snames[1], subb(), weights=ws, **kw), ref_sub, sn, names=snames)
+                pair("pandas_df_histogram_subset", lambda: dfl.physt.histogram(snames, subb(), weights=ws, **kw), ref_sub, sn, names=snames)
+                pair("dask_plain_h2", lambda: h2(da.from_array(A[:, sub[0]], chunks=extra["chunk"]), da.from_array(A[:, sub[1]], chunks=n),
+                                                 subb(), weights=ws, **kw), ref_sub, sn)
+                if d == 2:
+                    rec("pandas_df_h2_nocolumns", lambda: df.physt.h2(bins=mkb(), weights=ws, **kw), sn)
+                else:
+                    refusal("pandas_df_h2_nocolumns_3cols", lambda: df.physt.h2(bins=mkb()[:2]))
+                # ---- collection(): one 1-D histogram per column over shared bins ----
+                if not np.isnan(A).any():
+                    refs = [run("ref_col", lambda i=i: h1(A[:, i], mkb()[0]), s1) for i in range(d)]
+                    for cname, src in (("collection_pandas", lambda: df), ("collection_polars", lambda: pdf),
+                                       ("collection_dict", lambda: {nm: A[:, i] for i, nm in enumerate(names)})):
+                        try:
+                            col = physt.collection(src(), mkb()[0])
+                            out.setdefault("collections", {})[cname] = [[str(x.name) for x in col.histograms], [s1(x) for x in col.histograms], refs]
+                        except Exception as e:
+                            out["outcomes"][cname] = "REFUSED"
+                            log.append(f"{cname}: {type(e).__name__}: {e}"[:160])
+                else:
+                    outcome("collection_pandas_nan", lambda: physt.collection(df, mkb()[0]))
+                # ---- inputs the property wants refused ----
+                k = extra["null_at"]
+                col0 = [None if i == k else (None if np.isnan(v) else float(v)) for i, v in enumerate(A[:, 0])]
+                pdfn = pl.DataFrame({names[0]: pl.Series(names[0], col0, dtype=pl.Float64), **{nm: A[:, i] for i, nm in enumerate(names) if i}})
+                for name, f in (
+                        ("polars_df_null", lambda: h(pdfn, mkb())),
+                        ("polars_df_accessor_null", lambda: pdfn.physt.h(bins=mkb())),
+                        ("polars_df_weights_null", lambda: h(pdf, mkb(), weights=pl.Series("w", [None if i == k else 1.0 for i in range(n)],
+                                                                                      dtype=pl.Float64))),
+                        ("polars_df_strings", lambda: h(pdfl, mkb() + mkb()[:1])),
+                        ("polars_df_accessor_strings_selected", lambda: pdfl.physt.h(label, names[0], bins=mkb()[:2])),
+                        ("polars_df_accessor_nonnumeric", lambda: pl.DataFrame({label: ["t"] * n}).physt.h(bins=mkb())),
+                        ("polars_df_empty", lambda: h(pl.DataFrame(), mkb())),
+                        ("polars_series_to_h", lambda: h(pdf[names[0]], mkb())),
+                        ("polars_series_to_h_named", lambda: h(pdf[names[0]], mkb(), axis_names=names)),
+                        ("polars_df_to_h2", lambda: h2(pdf, pdf[names[0]], mkb()[:2])),
+                        ("polars_df_to_h2_named", lambda: h2(pdf, pdf[names[0]], mkb()[:2], axis_names=names[:2])),
+                        ("pandas_df_to_h2", lambda: h2(df, df[names[0]], mkb()[:2])),
+                        ("polars_df_weights_strings", lambda: h(pdf, mkb(), weights=pl.Series("w", ["a"] * n))),
+                        ("polars_df_wrong_axis_names", lambda: h(pdf, mkb(), axis_names=[f"g{i}" for i in range(extra["wrong_names"])])),
+                        ("pandas_df_wrong_axis_names", lambda: h(df, mkb(), axis_names=[f"g{i}" for i in range(extra["wrong_names"])])),
+                        ("array_wrong_axis_names", lambda: h(A, mkb(), axis_names=[f"g{i}" for i in range(extra["wrong_names"])])),
+                        ("polars_df_wrong_dim", lambda: h(pdf, mkb(), dim=d + 1)),
+                        ("pandas_df_wrong_dim", lambda: h(df, mkb(), dim=d + 1)),
+                        ("array_wrong_dim", lambda: h(A, mkb(), dim=d + 1)),
+                        ("pandas_df_strings_accessor", lambda: dfl.physt.histogram(None, mkb() + mkb()[:1])),
+                        ("pandas_df_strings_selected", lambda: dfl.physt.h2(label, names[0], mkb()[:2])),
+                        ("pandas_df_h2_unknown_column", lambda: df.physt.h2(names[0], "nope", mkb()[:2])),
+                        ("pandas_df_histogram_unknown_column", lambda: df.physt.histogram([names[0], "nope"], mkb()[:2])),
+                        ("pandas_df_histogram_no_columns", lambda: df.physt.histogram([], mkb())),
+                        ("pandas_df1_h2", lambda: df[[names[0]]].physt.h2(bins=mkb()[:2]))):
+                    refusal(name, f)
+                outcome("pandas_df_h2_one_column_given", lambda: df.physt.h2(names[0], bins=mkb()[:2]))
+                outcome("polars_weights_frame", lambda: h(pdf, mkb(), weights=pl.DataFrame({"w": np.ones(n)})))
+        return {"outs": out, "log": log, "why": why}
+
+    # ------------------------------------------------------------------ physt.compat.dask
+    def run_dask(self, case):
+        import dask
+        import dask.array as da
+        import dask.local
+        from physt import h, h1
+        from physt.compat import dask as pdask
+        d = case["d"]
+        A = np.array([[np.nan if v is None else v for v in r] for r in case["data"]], dtype=float)
+        n = len(A)
+        ws = np.array(case["weights"], dtype=case["wkind"])
+        width = case["width"]
+        out = {"results": {}, "refusals": {}, "pairs": {}, "outcomes": {}}
+        log = []
+        why = {}        # the error met by each demanded refusal (for the reader of a sample; not compared)
+
+        def run(name, f, snap):
+            try:
+                return snap(f())
+            except Exception as e:
+                log.append(f"{name}: {type(e).__name__}: {e}"[:160])
+                return "REFUSED"
+
+        def refusal(name, f):
+            try:
+                f(); out["refusals"][name] = "accepted"
+            except Exception as e:
+                out["refusals"][name] = "REFUSED"
+                why[name] = f"{type(e).__name__}: {e}"[:120]
+
+        def outcome(name, f):
+            try:
+                f(); out["outcomes"][name] = "accepted"
+            except Exception as e:
+                out["outcomes"][name] = "REFUSED"
+                log.append(f"{name}: {type(e).__name__}: {e}"[:160])
+
+        def graph(f, snap):
+            """compute=False hands back (graph, key): evaluated here with the synchronous scheduler"""
+            def g():
+                r = f()
+                if isinstance(r, tuple) and len(r) == 2 and isinstance(r[0], dict):
+                    out["graph_tasks"] = len(r[0])
+                    return dask.get(r[0], r[1])
+                return r
+            return g
+        kwb = dict(bin_width=width)
+        if d == 1:
+            x = A[:, 0]
+            snap = s1
+            # the dask facade forces adaptive=True: so does the reference
+            ref = run("ref", lambda: h1(x, "fixed_width", adaptive=True, **kwb), s1)
+            refw = run("refw", lambda: h1(x, "fixed_width", adaptive=True, weights=ws, **kwb), s1)
+            out["ref"] = ref
+
+            def arr(p):
+                return da.from_array(x, chunks=(tuple(p),))
+
+            def dk(name, f, must=True, names=None, r=None):
+                out["pairs"][name] = {"got": run(name, f, snap), "ref": ref if r is None else r, "names": names, "must": must}
+            for i, p in enumerate(case["parts"]):
+                dk(f"dask_h1:p{i}", lambda: pdask.h1(arr(p), "fixed_width", **kwb))
+            p = case["parts"][-1]
+            dk("dask_h1_method_none", lambda: pdask.h1(arr(p), "fixed_width", dask_method=None, **kwb))
+            dk("dask_h1_method_threads", lambda: pdask.h1(arr(p), "fixed_width", dask_method="threads", **kwb))
+            dk("dask_h1_method_callable", lambda: pdask.h1(arr(p), "fixed_width", dask_method=dask.local.get_sync, **kwb))
+            dk("dask_h1_graph", graph(lambda: pdask.h1(arr(p), "fixed_width", compute=False, **kwb), s1))
+            dk("dask_h1_axis_name", lambda: pdask.histogram1d(arr(p), "fixed_width", axis_name="given", **kwb), names="given")
+            dk("dask_h1_adaptive_true", lambda: pdask.h1(arr(p), "fixed_width", adaptive=True, **kwb))
+            # a numpy array handed to the dask facade, weights: nothing says these are taken -- an accepted call must be right
+            dk("dask_h1_numpy", lambda: pdask.h1(x, "fixed_width", **kwb), must=False)
+            dk("dask_h1_list", lambda: pdask.h1(x.tolist(), "fixed_width", **kwb), must=False)
+            dk("dask_h1_weights_one_chunk", lambda: pdask.h1(arr([n]), "fixed_width", weights=ws, **kwb), must=False, r=refw)
+            dk("dask_h1_weights_chunked", lambda: pdask.h1(arr(case["parts"][0]), "fixed_width", weights=ws, **kwb), must=False, r=refw)
+            outcome("dask_h1_adaptive_false", lambda: pdask.h1(arr(p), "fixed_width", adaptive=False, **kwb))
+            outcome("dask_h1_invalid_method", lambda: pdask.h1(arr(p), "fixed_width", dask_method="no_such_scheduler", **kwb))
+        else:
+            snap = sn
+            ref = run("ref", lambda: h(A, "fixed_width", adaptive=True, **kwb), sn)
+            refw = run("refw", lambda: h(A, "fixed_width", adaptive=True, weights=ws, **kwb), sn)
+            out["ref"] = ref
+
+            def arr(p, cp=None):
+                return da.from_array(A, chunks=(tuple(p), tuple(cp or [d])))
+
+            def cols(kind=list):
+                return kind(da.from_array(A[:, i], chunks=(tuple(case["colpart_each"][i]),)) for i in range(d))
+
+            def dk(name, f, must=True, names=None, r=None):
+                out["pairs"][name] = {"got": run(name, f, snap), "ref": ref if r is None else r, "names": names, "must": must}
+            for i, (p, cp) in enumerate(zip(case["parts"], case["colparts"])):
+                dk(f"dask_h:p{i}", lambda: pdask.histogramdd(arr(p, cp), "fixed_width", **kwb))
+            p, cp = case["parts"][-1], case["colparts"][-1]
+            dk("dask_h_list", lambda: pdask.histogramdd(cols(list), "fixed_width", **kwb))
+            dk("dask_h_tuple", lambda: pdask.histogramdd(cols(tuple), "fixed_width", **kwb))
+            dk("dask_h_method_none", lambda: pdask.histogramdd(arr(p, cp), "fixed_width", dask_method=None, **kwb))
+            dk("dask_h_method_threads", lambda: pdask.histogramdd(arr(p, cp), "fixed_width", dask_method="threading", **kwb))
+            dk("dask_h_method_callable", lambda: pdask.histogramdd(arr(p, cp), "fixed_width", dask_method=dask.local.get_sync, **kwb))
+            dk("dask_h_graph", graph(lambda: pdask.histogramdd(arr(p, cp), "fixed_width", compute=False, **kwb), sn))
+            dk("dask_h_axis_names", lambda: pdask.histogramdd(arr(p, cp), "fixed_width", axis_names=case["names"], **kwb), names=case["names"])
+            if d == 2:
+                c = cols(list)
+                dk("dask_h2", lambda: pdask.h2(c[0], c[1], "fixed_width", **kwb))
+                dk("dask_h2_axis_names", lambda: pdask.histogram2d(c[0], c[1], "fixed_width", axis_names=case["names"], **kwb),
+                   names=case["names"])
+                dk("dask_h2_numpy", lambda: pdask.h2(A[:, 0], A[:, 1], "fixed_width", **kwb), must=False)
+                dk("dask_h2_mixed", lambda: pdask.h2(c[0], A[:, 1], "fixed_width", **kwb), must=False)
+            if d == 3:
+                dk("dask_h3", lambda: pdask.h3(arr(p, cp), "fixed_width", **kwb))
+                dk("dask_h3_list", lambda: pdask.h3(cols(list), "fixed_width", **kwb))
+            dk("dask_h_numpy", lambda: pdask.histogramdd(A, "fixed_width", **kwb), must=False)
+            dk("dask_h_weights_one_chunk", lambda: pdask.histogramdd(arr([n]), "fixed_width", weights=ws, **kwb), must=False, r=refw)
+            dk("dask_h_weights_chunked", lambda: pdask.histogramdd(arr(case["parts"][0]), "fixed_width", weights=ws, **kwb), must=False, r=refw)
+            # wrongly shaped
+            refusal("dask_h_1d_array", lambda: pdask.histogramdd(da.from_array(A[:, 0], chunks=(tuple(p),)), "fixed_width", **kwb))
+            refusal("dask_h_3d_array", lambda: pdask.histogramdd(da.from_array(A.reshape(n, d, 1), chunks=(tuple(p), d, 1)), "fixed_width", **kwb))
+            outcome("dask_h_adaptive_false", lambda: pdask.histogramdd(arr(p, cp), "fixed_width", adaptive=False, **kwb))
+            outcome("dask_h_invalid_method", lambda: pdask.histogramdd(arr(p, cp), "fixed_width", dask_method="no_such_scheduler", **kwb))
+        return {"outs": out, "log": log, "why": why}
 
     def model_case(self, case, io):
+        if case["kind"] != "containers":
+            return None
         ref = io["outs"]["results"].get("array")
         if ref == "REFUSED" or ref is None:
             return None
@@ -221,10 +652,46 @@ class C17:
                 d.append(f"reference.{k}: model={a} impl={b}")
         return d
 
-    # ------------------------------------------------------------------
+    # ------------------------------------------------------------------ the property, restated on the outputs
+    @staticmethod
+    def _pairs(o, log, fails, invalid_ref=False):
+        """entry forms with their own reference: an accepted call must reproduce it (contents, bins, errors, missed, dtype, and the
+        axis names where the property fixes them); where acceptance is required, a refusal is a failure too"""
+        for name, p in o.get("pairs", {}).items():
+            got, ref = p["got"], p["ref"]
+            dask = name.startswith("dask_h")
+            if not isinstance(ref, dict):
+                if invalid_ref and isinstance(got, dict):
+                    fails.append(f"accepted_invalid: {name} accepted NaN with dropna=False")
+                continue
+            if got == "REFUSED":
+                if p["must"]:
+                    why = "; ".join(l[len(name) + 2:] for l in log if l.startswith(name + ":"))[:200]
+                    fails.append((f"dask_refused: {name}: " if dask else f"container_refused: {name} was refused although the array is accepted: ") + why)
+                continue
+            fields = F1 if "under" in ref else FN
+            if ("under" in got) != ("under" in ref):
+                fails.append(f"container_differs: {name}: a {'1-D' if 'under' in got else 'N-D'} histogram came back")
+                continue
+            for f in fields:
+                if got[f] != ref[f]:
+                    fails.append((f"dask_differs: {name}: {f} = {got[f]}, the whole numpy array (adaptive=True) gives {ref[f]}" if dask else
+                                  f"container_differs: {name}: {f} = {got[f]}, the numpy array gives {ref[f]}")[:400])
+                    break
+            if p["names"] is not None:
+                gn = got["axis_name"] if "axis_name" in got else got["names"]
+                if gn != p["names"]:
+                    fails.append(f"axis_name: {name} has axis name(s) {gn!r}, expected {p['names']!r}")
+
     def oracle(self, case, io):
         o = io["outs"]
         fails = []
+        if case["kind"] == "dask":
+            self._pairs(o, io["log"], fails)
+            for name, r in o["refusals"].items():
+                if r != "REFUSED":
+                    fails.append(f"accepted_invalid: {name} was accepted")
+            return fails[:6]
         res = o["results"]
         ref = res.get("array")
         has_nan = any(v is None for r in case["data"] for v in r)
@@ -232,12 +699,18 @@ class C17:
         if ref == "REFUSED":
             if not must_refuse_ref:
                 fails.append("refused_valid: the reference array call was refused: " + "; ".join(io["log"][:1]))
-            return fails
+            else:
+                # the same arguments are refused for the array (NaN with dropna=False): so they are for every container
+                for name, r in res.items():
+                    if isinstance(r, dict) and name not in ("h2_F_columns", "h2_ref_noweights") and not name.startswith("dask_chunks"):
+                        fails.append(f"accepted_invalid: {name} accepted NaN with dropna=False")
+                self._pairs(o, io["log"], fails, invalid_ref=True)
+            return fails[:6]
         if must_refuse_ref:
             fails.append("accepted_invalid: NaN accepted with dropna=False")
         fields = F1 if case["d"] == 1 else FN
         for name, r in res.items():
-            if name in ("array", "explicit_axis_name", "explicit_names", "ref_hist", "h2_F_columns", "h2_ref_noweights") or name.startswith("dask"):
+            if name in ("array", "explicit_axis_name", "explicit_names", "ref_hist", "h2_F_columns", "h2_ref_noweights") or name.startswith("dask_chunks"):
                 continue
             if r == "REFUSED":
                 fails.append(f"container_refused: {name} was refused although the array is accepted: " + "; ".join(l for l in io["log"] if l.startswith(name))[:200])
@@ -246,9 +719,11 @@ class C17:
                 if r[f] != ref[f]:
                     fails.append(f"container_differs: {name}: {f} = {r[f]}, the numpy array gives {ref[f]}")
                     break
+        self._pairs(o, io["log"], fails)
         # axis names
         if case["d"] == 1:
-            for name in ("pandas_series", "pandas_accessor", "polars_series", "pandas_df_accessor"):
+            for name in ("pandas_series", "pandas_accessor", "polars_series", "pandas_df_accessor", "pandas_accessor_histogram",
+                         "pandas_df1_h1_nocolumn", "pandas_df_histogram_str", "polars_series_accessor"):
                 r = res.get(name)
                 if isinstance(r, dict) and r["axis_name"] != case["names"][0]:
                     fails.append(f"axis_name: {name} has axis name {r['axis_name']!r}, the Series is named {case['names'][0]!r}")
@@ -257,13 +732,15 @@ class C17:
                 fails.append(f"axis_name_explicit: explicit axis_name ignored ({r['axis_name']!r})")
             if "dask_ref" in o:
                 for name, r in res.items():
-                    if name.startswith("dask"):
+                    if name.startswith("dask_chunks"):
                         if r == "REFUSED":
                             fails.append(f"dask_refused: {name}: " + "; ".join(l for l in io["log"] if l.startswith(name))[:160])
                         elif any(r[f] != o["dask_ref"][f] for f in ("bins", "freq", "err2", "under", "over")):
                             fails.append(f"dask_differs: {name} gives {r['freq']} over {len(r['bins'])} bins, the whole array gives {o['dask_ref']['freq']}")
         else:
-            for name in ("pandas_df", "pandas_df_accessor", "polars_df", "h2_series", "df_h2_accessor"):
+            for name in ("pandas_df", "pandas_df_accessor", "polars_df", "h2_series", "df_h2_accessor", "polars_df_accessor",
+                         "polars_df_accessor_numeric_only", "polars_df_accessor_all_selected", "polars_df_dim", "pandas_df_dim",
+                         "pandas_df_h2_nocolumns", "pandas_df_named_hist"):
                 r = res.get(name)
                 if isinstance(r, dict) and r["names"] != case["names"]:
                     fails.append(f"axis_names: {name} has names {r['names']}, the columns are {case['names']}")
@@ -273,6 +750,12 @@ class C17:
             a, b = res.get("h2_F_columns"), res.get("h2_ref_noweights")
             if isinstance(a, dict) and isinstance(b, dict) and any(a[f] != b[f] for f in ("freq", "err2", "missed")):
                 fails.append(f"column_alignment: h2 of differently laid-out (Fortran / C ordered) columns gives {a['freq']}, expected {b['freq']}")
+            for key, (cn, got, refs) in o.get("collections", {}).items():
+                if cn != case["names"]:
+                    fails.append(f"collection_names: {key}: histograms named {cn}, the columns are {case['names']}")
+                for nm, g, r in zip(cn, got, refs):
+                    if isinstance(r, dict) and any(g[f] != r[f] for f in ("bins", "freq", "err2", "under", "over")):
+                        fails.append(f"collection_differs: {key}[{nm}] = {g['freq']}, h1 of the column gives {r['freq']}")
         for name, r in o["refusals"].items():
             if r != "REFUSED":
                 fails.append(f"accepted_invalid: {name} was accepted")
@@ -304,13 +787,27 @@ class C17:
     def nontrivial(self, case, io):
         if case["kind"] == "geant4":
             return True
-        r = io["outs"]["results"].get("array")
+        r = io["outs"]["ref"] if case["kind"] == "dask" else io["outs"]["results"].get("array")
         return isinstance(r, dict) and any(Fraction(x) != 0 for x in r["freq"])
 
     def tags(self, case, io):
         if case["kind"] == "geant4":
             return ["geant4"]
-        return list(case["tags"]) + [f"containers:{len(io['outs']['results'])}"] + (["weights"] if case["weights"] else [])
+        o = io["outs"]
+        t = list(case["tags"])
+        forms = [k for k, v in o["results"].items() if k not in ("array", "ref_hist", "h2_ref_noweights")] + list(o["pairs"])
+        t += [f"containers:{len(forms)}"] + (["weights"] if case["weights"] and case["kind"] == "containers" else [])
+        t += [f"container:{k.split(':')[0]}" for k in forms]
+        t += [f"bad:{k}" for k in o["refusals"]]
+        t += [f"outcome:{k}:{'refused' if v == 'REFUSED' else 'accepted'}" for k, v in o["outcomes"].items()]
+        t += [f"outcome:{k}:{'refused' if p['got'] == 'REFUSED' else 'accepted'}" for k, p in o["pairs"].items() if not p["must"]]
+        if case["kind"] == "dask":
+            t += sorted({f"chunks:{len(p)}" for p in case["parts"]})
+            if case["d"] > 1:
+                t += sorted({"colchunks:" + "+".join(map(str, cp)) for cp in case["colparts"]})
+            if any(v is None for r in case["data"] for v in r):
+                t.append("dask:nan_rows")
+        return t
 
     def matches_known(self, finding, case):
         return False
@@ -319,6 +816,23 @@ class C17:
         return []
 
     def shrink_candidates(self, case):
+        if case["kind"] == "dask":
+            n = len(case["data"])
+            for j in range(n):
+                if n <= 2:
+                    break
+                c = copy.deepcopy(case)
+                del c["data"][j]
+                del c["weights"][j]
+                c["parts"] = [drop_row_from_partition(p, j) for p in case["parts"]]
+                c["colpart_each"] = [drop_row_from_partition(p, j) for p in case["colpart_each"]]
+                yield c
+            for i in range(len(case["parts"]) - 1):
+                c = copy.deepcopy(case)
+                del c["parts"][i]
+                del c["colparts"][i]
+                yield c
+            return
         if case["kind"] != "containers":
             return
         for j in range(len(case["data"])):
@@ -328,6 +842,12 @@ class C17:
             del c["data"][j]
             if c["weights"] is not None:
                 del c["weights"][j]
+            if "extra" in c:
+                c["extra"]["null_at"] = min(c["extra"]["null_at"], len(c["data"]) - 1)
+            yield c
+        if case.get("weights") is not None:
+            c = copy.deepcopy(case)
+            c["weights"], c["wkind"] = None, None
             yield c
 
 
